@@ -349,7 +349,13 @@ class GreedySpan:
             # span will have multiple starting points, contract these
             o_nodes = list(region)
             o_inputs = [inputs[i] for i in o_nodes]
-            o_ssa_path = ssa_greedy_optimize(o_inputs, output, size_dict)
+            # n.b. the output tensors on their own have many 'dangling'
+            # indices (connecting them to the rest of the network), we don't
+            # want these treated as single term simplifications, since we
+            # need a purely pairwise path here
+            o_ssa_path = ssa_greedy_optimize(
+                o_inputs, output, size_dict, simplify=False
+            )
             seq = []
             for pi, pj in o_ssa_path:
                 merges[o_nodes[pi]] = o_nodes[pj]
